@@ -37,6 +37,8 @@ type c06Sess struct {
 	gotShutdownGoodbye bool
 	realm     string
 	lateJoin  bool // HELLO sent after the realm/router was shut down
+	droppedByUs bool // the harness closed the transport itself
+	closedSeen  bool // the router closed the transport
 }
 
 type c06Oracle struct {
@@ -75,6 +77,7 @@ func (o *c06Oracle) OnStep(e *Engine, st *StepRec) *Violation {
 			delete(o.removed, op.URI)
 		case "drop":
 			o.sess(op.S, e).ended = true
+			o.sess(op.S, e).droppedByUs = true
 		}
 	}
 	if shutdownThisStep && len(st.OpIdx) > 1 {
@@ -123,6 +126,7 @@ func (o *c06Oracle) OnStep(e *Engine, st *StepRec) *Violation {
 	}
 	for _, i := range st.Closed {
 		o.sess(i, e).ended = true
+		o.sess(i, e).closedSeen = true
 	}
 	if st.Phase == "settle" {
 		// every timer has fired; Close / RemoveRealm must have returned
@@ -147,6 +151,12 @@ func (o *c06Oracle) OnStep(e *Engine, st *StepRec) *Violation {
 			down := o.closed || o.removed[s.realm]
 			if down && !s.ended && !s.gotShutdownGoodbye {
 				return &Violation{Prop: "C06", Step: st.N, Reason: fmt.Sprintf("session %d was attached to realm %s when it was shut down but neither read GOODBYE wamp.close.system_shutdown nor found its transport closed", i, s.realm)}
+			}
+			// also a session that was ending on its own account at that moment (its GOODBYE
+			// or a protocol violation in flight): told about the shutdown or not, its
+			// transport must not stay open
+			if down && !s.droppedByUs && !s.gotShutdownGoodbye && !s.closedSeen && e.Sess[i].lk != nil && !e.Sess[i].Stalled {
+				return &Violation{Prop: "C06", Step: st.N, Reason: fmt.Sprintf("session %d of realm %s ended on its own account while the realm was shut down; 24 virtual hours later its transport is still open and it was not told wamp.close.system_shutdown", i, s.realm)}
 			}
 		}
 		if !o.closed {
@@ -310,7 +320,13 @@ func genC06(t *rapid.T) *Case {
 	nb := uni(t, 5, "nbatch")
 	for i := 0; i < nb; i++ {
 		s := uni(t, n, "bs")
-		switch uni(t, 8, "bk") {
+		switch uni(t, 11, "bk") {
+		case 8, 9:
+			// a session that ends on its own account at that very moment
+			batch = append(batch, Op{K: "goodbye", S: s})
+		case 10:
+			// ... or is being ended for a protocol violation (a client must not send WELCOME)
+			batch = append(batch, Op{K: "raw", S: s, Msg: &RawMsg{Type: 2, Fields: []V{VID(5), VDict()}}})
 		case 0:
 			batch = append(batch, Op{K: "publish", S: s, URI: g.ps.topicFor(t), Opts: []KV{{"acknowledge", VBool(true)}}})
 		case 1:
